@@ -1266,27 +1266,26 @@ private:
   /***/
   QUILL_ATTRIBUTE_HOT void _flush_and_run_active_sinks(bool run_periodic_tasks, std::chrono::milliseconds sink_min_flush_interval)
   {
-    // Populate the active sinks cache with unique sinks, consider only the valid loggers
+    // Populate the active sinks cache with unique sinks. A logger that was removed stays registered
+    // until everything logged through it has been written: its sinks still receive those statements
+    // and are flushed like the others
     _logger_manager.for_each_logger(
       [this](LoggerBase* logger)
       {
-        if (logger->is_valid_logger())
+        for (std::shared_ptr<Sink> const& sink : logger->sinks)
         {
-          for (std::shared_ptr<Sink> const& sink : logger->sinks)
-          {
-            Sink* logger_sink_ptr = sink.get();
-            auto search_it = std::find_if(_active_sinks_cache.begin(), _active_sinks_cache.end(),
-                                          [logger_sink_ptr](Sink* elem)
-                                          {
-                                            // no one else can remove the shared pointer as this is
-                                            // only running on backend thread
-                                            return elem == logger_sink_ptr;
-                                          });
+          Sink* logger_sink_ptr = sink.get();
+          auto search_it = std::find_if(_active_sinks_cache.begin(), _active_sinks_cache.end(),
+                                        [logger_sink_ptr](Sink* elem)
+                                        {
+                                          // no one else can remove the shared pointer as this is
+                                          // only running on backend thread
+                                          return elem == logger_sink_ptr;
+                                        });
 
-            if (search_it == std::end(_active_sinks_cache))
-            {
-              _active_sinks_cache.push_back(logger_sink_ptr);
-            }
+          if (search_it == std::end(_active_sinks_cache))
+          {
+            _active_sinks_cache.push_back(logger_sink_ptr);
           }
         }
 
@@ -1431,6 +1430,13 @@ private:
    */
   QUILL_ATTRIBUTE_HOT void _cleanup_invalidated_loggers()
   {
+    if (_logger_manager.has_invalidated_loggers())
+    {
+      // Once a logger is destroyed the backend can no longer reach its sinks, but a sink the user
+      // still holds stays open: flush what was written through them before they are let go
+      _flush_and_run_active_sinks(false, std::chrono::milliseconds{0});
+    }
+
     // since there are no messages we can check for invalidated loggers and clean them up
     std::vector<std::string> const removed_loggers = _logger_manager.cleanup_invalidated_loggers(
       [this]()
